@@ -111,7 +111,9 @@ func (upc *BroadcastRawUDPConn) ReadFrom(b []byte) (int, net.Addr, error) {
 			continue
 		}
 
-		if !buf.Has(udpHdrLen) {
+		// The IP payload must hold a whole UDP header, or the payload length
+		// computed below is negative.
+		if !buf.Has(udpHdrLen) || int(ipHdr.payloadLength()) < udpHdrLen {
 			continue
 		}
 
